@@ -53,7 +53,7 @@ _HASH_REGEXES = {
 
 # compile all the regexes; be case-insensitive
 for hash_, re_str in _HASH_REGEXES.items():
-    _HASH_REGEXES[hash_] = re.compile(re_str, re.I)
+    _HASH_REGEXES[hash_] = re.compile(re_str, re.I | re.A)
 
 
 def infer_hash_algorithm(name):
